@@ -1969,7 +1969,7 @@ int xmp_start_player(xmp_context opaque, int rate, int format)
 	f->loop = (struct pattern_loop *) calloc(p->virt.virt_channels, sizeof(struct pattern_loop));
 	if (f->loop == NULL) {
 		ret = -XMP_ERROR_SYSTEM;
-		goto err;
+		goto err0;
 	}
 
 	p->xc_data = (struct channel_data *) calloc(p->virt.virt_channels, sizeof(struct channel_data));
@@ -1986,8 +1986,10 @@ int xmp_start_player(xmp_context opaque, int rate, int format)
 		struct channel_data *xc = &p->xc_data[i];
 		xc->filter.cutoff = 0xff;
 #ifndef LIBXMP_CORE_PLAYER
-		if (libxmp_new_channel_extras(ctx, xc) < 0)
+		if (libxmp_new_channel_extras(ctx, xc) < 0) {
+			ret = -XMP_ERROR_SYSTEM;
 			goto err2;
+		}
 #endif
 	}
 #endif
@@ -1999,13 +2001,19 @@ int xmp_start_player(xmp_context opaque, int rate, int format)
 
 #ifndef LIBXMP_CORE_PLAYER
     err2:
+	while (--i >= 0) {
+		libxmp_release_channel_extras(ctx, &p->xc_data[i]);
+	}
 	free(p->xc_data);
 	p->xc_data = NULL;
 #endif
     err1:
 	free(f->loop);
 	f->loop = NULL;
+    err0:
+	libxmp_virt_off(ctx);
     err:
+	libxmp_mixer_off(ctx);
 	return ret;
 }
 
